@@ -285,7 +285,10 @@ def timeout_scn(tmo, pre, child_sleep, grand_sleep, awaited, second_handler, lat
     scripts = {'S_b1': {'R': r_ops, 'C': c_ops, 'G': g_ops, 'L': []}, 'S_b2': {'C': c_ops, 'G': g_ops, 'L': [], 'R': []},
                'S2': {'R': [['s', 1]]}}
     handlers = [wild('b1'), wild('b2')]
-    if second_handler:
+    if second_handler == 'after':   # runs after the slow wildcard handler: still pending when that one times out
+        scripts['S2'] = {'R': [['s', 1]], 'C': [], 'G': [], 'L': []}
+        handlers.append(wild('b1', 'S2', hid='second_w'))
+    elif second_handler:            # typed handlers run before wildcard ones
         handlers.append(typed('b1', 'R', 'S2', hid='second'))
     scripts['S3'] = {'C': [['s', 1]], 'G': [['s', 1]]}
     if 'C' in extra:   # a second (serial) handler for the child on its bus: pending while the first one runs
@@ -301,7 +304,7 @@ def timeout_scn(tmo, pre, child_sleep, grand_sleep, awaited, second_handler, lat
 
 def sys_timeout():
     out = []
-    for tmo, pre, cs, gs, aw, sh, le, tg in itertools.product([2, 5, 9, 50], [0, 3], [0, 4], [None, 0, 4], [True, False], [False, True],
+    for tmo, pre, cs, gs, aw, sh, le, tg in itertools.product([2, 5, 9, 50], [0, 3], [0, 4], [None, 0, 4], [True, False], [False, True, 'after'],
                                                               [False, True], ['b1', 'b2']):
         out.append(timeout_scn(tmo, pre, cs, gs, aw, sh, le, tg))
     for tmo, cs, gs, extra, tg in itertools.product([2, 3, 5, 7, 9], [0, 2, 4], [0, 2, 4], ['C', 'G', 'CG'], ['b1', 'b2']):
@@ -638,7 +641,72 @@ def gen_wal(seed):
     return scn(buses, handlers, scripts, [d], horizon=8000, tag='wal')
 
 
+def sys_deep_timeout():
+    """four nested in-handler awaits (distinct typed handlers per level, so the recursion guard stays out of it); a middle level times out
+    while a leaf handler runs; the leaf has a second, still pending, handler; an unrelated event is queued meanwhile"""
+    out = []
+    for tlevel, tmo, leaf_sleep, alt, unrelated_at, leaf2, outer_extra in itertools.product([1, 2], [3, 6], [10, 20], [False, True], [None, 1, 4], [True, False], [False, True]):
+        names = ['b1', 'b2'] if alt else ['b1']
+        def bus_of(i):
+            return names[i % len(names)]
+        scripts, handlers, events = {}, [], {}
+        for lvl in range(4):
+            ty = 'T%d' % lvl
+            ops = []
+            if lvl < 3:
+                ops = [['d', bus_of(lvl + 1), 'T%d' % (lvl + 1)], ['a', 0]]
+                if lvl == 0 and outer_extra:
+                    ops.append(['s', 2])
+            else:
+                ops = [['s', leaf_sleep]]
+            scripts['H%d' % lvl] = {ty: ops}
+            handlers.append(typed(bus_of(lvl), ty, 'H%d' % lvl, hid='h%d' % lvl))
+            if lvl == tlevel:
+                events[ty] = {'timeout': tmo}
+        if leaf2:
+            scripts['H3b'] = {'T3': [['y', 1]]}
+            handlers.append(typed(bus_of(3), 'T3', 'H3b', hid='h3b'))
+        scripts['HU'] = {'U': []}
+        for b in names:
+            handlers.append(typed(b, 'U', 'HU', hid='u_' + b))
+        d = [['d', 'b1', 'T0']]
+        if unrelated_at is not None:
+            d += [['s', unrelated_at], ['d', bus_of(1), 'U']]
+        d += [['a', 0]] + [['idle', b, 2000] for b in names]
+        out.append(scn([bus(b) for b in names], handlers, scripts, [d], events=events, horizon=9000, tag='deep_timeout'))
+    return out
+
+
+def sys_fwd_deep():
+    """dispatch chains four and five levels deep (a distinct typed handler per level) on buses that forward: forwarding handlers
+    see every level, the recursion guard must not count them"""
+    out = []
+    names = ['b1', 'b2', 'b3']
+    rings = {'ring': [('b1', 'b2'), ('b2', 'b3'), ('b3', 'b1')], 'chain': [('b1', 'b2'), ('b2', 'b3')], 'star': [('b1', 'b2'), ('b1', 'b3')],
+             'self': [('b1', 'b1'), ('b1', 'b2')]}
+    for gname, edges in rings.items():
+        for depth, awaited, fwd_first, target_same in itertools.product([3, 4, 5], [False, True], [False, True], [True, False]):
+            scripts, handlers = {}, []
+            f = [fwd(s_, d_) for (s_, d_) in edges]
+            lv_handlers = []
+            for lvl in range(depth + 1):
+                ty = 'N%d' % lvl
+                b = 'b1' if target_same else names[lvl % 3]
+                ops = []
+                if lvl < depth:
+                    nb = 'b1' if target_same else names[(lvl + 1) % 3]
+                    ops = [['d', nb, 'N%d' % (lvl + 1)]] + ([['a', 0]] if awaited else [])
+                scripts['L%d' % lvl] = {ty: ops + [['rb']]}
+                lv_handlers.append(typed(b, ty, 'L%d' % lvl, hid='n%d' % lvl))
+            handlers = (f + lv_handlers) if fwd_first else (lv_handlers + f)
+            d = [['d', 'b1', 'N0'], ['a', 0]] + [['idle', b, 3000] for b in names] + [['idle', b, 3000] for b in names]
+            out.append(scn([bus(b) for b in names], handlers, scripts, [d], horizon=12000, tag='fwd_deep'))
+    return out
+
+
 FAMILIES = {
+    'fwd_deep': ('sys', sys_fwd_deep),
+    'deep_timeout': ('sys', sys_deep_timeout),
     'wal': ('rand', gen_wal),
     'errors_par': ('sys', sys_errors_par),
     'retry_dispatch': ('sys', sys_retry_dispatch),
